@@ -55,7 +55,14 @@ def main():
         res["checks"] = {}
         for c in checks:
             rc = subprocess.run([str(verif / "check"), c, "--tier", tier], env=env, capture_output=True, text=True, cwd=str(verif))
-            lines = [l for l in rc.stdout.splitlines() if l.startswith("VIOLATION") or l.startswith("  ")][:6]
+            out_lines = rc.stdout.splitlines()
+            lines = []
+            for k, l in enumerate(out_lines):          # each VIOLATION line with the explanation that follows it
+                if l.startswith("VIOLATION"):
+                    lines.append(l)
+                    if k + 1 < len(out_lines) and out_lines[k + 1].startswith("  "):
+                        lines.append(out_lines[k + 1])
+            lines = lines[:6]
             res["checks"][c] = {"rc": rc.returncode, "violations": lines, "tail": rc.stdout.splitlines()[-2:]}
     finally:
         if inplace:
